@@ -74,9 +74,25 @@ fn main() {
             vh::props::c20::ship_child(&ctx)
         } else if let Some(hp) = vh::props::histprops::by_id(&prop) {
             vh::props::histprops::ship_child(&ctx, hp)
-        } else {
-            vh::ship::child_error("this property has no ship-profile sub-check");
+        } else if let Err(e) = vh::ship::child_profile_ok() {
+            vh::ship::child_error(&e);
             2
+        } else {
+            // every other property: its own quick check (the modules leave out their schedule searches in this mode),
+            // or the replay of one case
+            let found = match vh::ship::child_replay_request() {
+                Some((sub, case)) => match (entry.replay)(&ctx, &sub, case.clone()) {
+                    Ok(Some(v)) => Some(vh::driver::Found { sub, violation: v, case, replay_path: None }),
+                    Ok(None) => None,
+                    Err(e) => {
+                        vh::ship::child_error(&format!("bad replay case: {e}"));
+                        std::process::exit(2);
+                    }
+                },
+                None => (entry.check)(&ctx),
+            };
+            vh::ship::child_report(&ctx, found);
+            0
         };
         std::process::exit(code);
     }
@@ -126,7 +142,12 @@ fn main() {
             }
         }
     }
-    let found = (entry.check)(&ctx);
+    let mut found = (entry.check)(&ctx);
+    // properties that do not run the ship-profile sub-check themselves (C20 and the history properties do): their quick
+    // check once more in the build without overflow checks and debug assertions (see ship.rs)
+    if found.is_none() && prop != "C20" && vh::props::histprops::by_id(&prop).is_none() {
+        found = vh::ship::check(&ctx, "the property's quick check (without its schedule searches) re-run in a build of harness + calloop with overflow-checks = false, debug-assertions = false");
+    }
     let code = finish(&ctx, entry.meta, found);
     std::process::exit(code);
 }
